@@ -579,6 +579,8 @@ def run(spec, obs='light', clean_globals=True, check_args=False):
     ctx.strategies.clear()
     rec.ctx, rec.events, rec.orders = None, None, []
     if check_args:
-        after = _freeze(dict(config=config, routes=routes, data_routes=data, candles=candles, warmup_candles=warm, hyperparameters=hp_arg))
+        live = dict(config=config, routes=routes, data_routes=data, candles=candles, warmup_candles=warm, hyperparameters=hp_arg)
+        after = _freeze(live)
         out['args_modified'] = [k for k in after if after[k] != frozen[k]]
+        out['_live_args'] = (live, frozen)  # so that a caller can re-check them after LATER calls
     return out
